@@ -102,14 +102,16 @@ func truncateRecordBatchToTimestamp(batch []byte, cutoffMs int64) (RecordBatch, 
 	}
 	firstTimestamp := int64(binary.BigEndian.Uint64(batch[27:35]))
 	maxTimestamp := int64(binary.BigEndian.Uint64(batch[35:43]))
-	if maxTimestamp <= cutoffMs {
+	attributes := int16(binary.BigEndian.Uint16(batch[21:23]))
+	// The producer-supplied maxTimestamp header is only trusted when the records
+	// cannot be inspected (compressed); otherwise the records decide.
+	if maxTimestamp <= cutoffMs && compressionType(attributes) != 0 {
 		parsed, err := NewRecordBatchFromBytes(batch)
 		return parsed, true, false, err
 	}
 	if firstTimestamp > cutoffMs {
 		return RecordBatch{}, false, true, nil
 	}
-	attributes := int16(binary.BigEndian.Uint16(batch[21:23]))
 	if compressionType(attributes) != 0 {
 		return RecordBatch{}, false, false, fmt.Errorf("exact PITR does not support compressed record batches")
 	}
@@ -141,8 +143,10 @@ func truncateRecordBatchToTimestamp(batch []byte, cutoffMs int64) (RecordBatch, 
 		return RecordBatch{}, false, true, nil
 	}
 	if keptCount == recordCount {
+		// Every record is at or before the cutoff (the header's maxTimestamp
+		// overstated it): keep the batch and go on with the next one.
 		parsed, err := NewRecordBatchFromBytes(batch)
-		return parsed, true, true, err
+		return parsed, true, false, err
 	}
 
 	truncated := append([]byte(nil), batch[:recordBatchHeaderLen+keptBytes]...)
